@@ -78,6 +78,15 @@ func (n *dnode) print(sb *strings.Builder, ind string) {
 			a.body.print(sb, ind+"    ")
 			fmt.Fprintf(sb, "%s  )\n", ind)
 		}
+	case "fold": // let W := seq.foldl (fun W x => a) W ; b
+		w := tupleOf(*n.names)
+		fmt.Fprintf(sb, "%slet %s := %s.foldl (fun %s %s =>\n", ind, w, n.term, w, n.name)
+		n.a.print(sb, ind+"      ")
+		fmt.Fprintf(sb, "%s    ) %s\n", ind, w)
+		n.b.print(sb, ind)
+	case "guard": // arithmetic assumption of the translation (a Go int that must not be negative)
+		fmt.Fprintf(sb, "%sif %s then %s else\n", ind, n.term, n.name)
+		n.a.print(sb, ind)
 	case "ret":
 		fmt.Fprintf(sb, "%s%s\n", ind, n.term)
 	case "tuple":
@@ -92,6 +101,7 @@ type dloc struct {
 	path   []int // projection path (index, arity pairs flattened: i0, n0, i1, n1 …)
 	kind   string
 	lo, hi string // sub-slice of a byte array (hi == "" : to the end); lo == "" : whole
+	ro     bool   // a package-level constant: never written
 }
 
 type dv struct {
@@ -108,13 +118,18 @@ var structFields = map[string][]struct{ name, kind string }{
 	"ssig":  {{"r", "field"}, {"s", "scalar"}},
 	"pub":   {{"x", "field"}, {"y", "field"}},
 	"priv":  {{"Key", "scalar"}},
+	"naf":   {{"pos", "bytes"}, {"neg", "bytes"}, {"start", "int"}, {"end", "int"}},
 }
 
 var leanType = map[string]string{"scalar": "Nat", "field": "Nat", "int": "Nat", "point": "Jac", "sig": "Nat × Nat × Nat", "ssig": "Nat × Nat",
-	"pub": "Nat × Nat", "priv": "Nat", "bytes": "Bytes", "bool": "Bool"}
+	"pub": "Nat × Nat", "priv": "Nat", "bytes": "Bytes", "bool": "Bool", "hmac": "HmacObj", "reader": "Reader",
+	"naf": "Bytes × Bytes × Nat × Nat"}
+
+// valueArgs: a bytes-valued argument is parenthesised when it is not atomic
 
 var zeroOf = map[string]string{"scalar": "0", "field": "0", "int": "0", "point": "((0, 0, 0) : Jac)", "sig": "((0, 0, 0) : Nat × Nat × Nat)",
-	"ssig": "((0, 0) : Nat × Nat)", "pub": "((0, 0) : Nat × Nat)", "priv": "0", "bool": "false"}
+	"ssig": "((0, 0) : Nat × Nat)", "pub": "((0, 0) : Nat × Nat)", "priv": "0", "bool": "false",
+	"naf": "((List.replicate 33 (0 : UInt8), List.replicate 33 (0 : UInt8), 0, 0) : Bytes × Bytes × Nat × Nat)"}
 
 func proj(term string, i, n int) string {
 	if n == 1 {
@@ -182,21 +197,32 @@ type d8entry struct {
 	errT   string // Lean error type of a fallible entry
 	extra  string // extra leading Lean parameters, e.g. "(B : Bytes → Bytes)"
 	extraA string // … and how to pass them on in calls
-	fuel   int
+	fuel   string // fuel given to the entry's retry loop (a Lean term over its parameters); "" = no loop
 }
 
 var d8entries = []d8entry{
-	{"", "fieldToModNScalar", "fieldToModNScalar", true, "", "", "", 0},
-	{"", "modNScalarToField", "modNScalarToField", true, "", "", "", 0},
-	{"", "ScalarBaseMultNonConst", "scalarBaseMultNonConst", true, "", "", "", 0},
-	{"", "sign", "sign", false, "Unit", "", "", 0},
-	{"", "signRFC6979", "signRFC6979", false, "Unit", "", "", 16},
-	{"", "Signature.Verify", "verify", true, "", "", "", 0},
-	{"", "Signature.RecoverPublicKey", "recoverPublicKey", false, "SigErr", "", "", 0},
-	{"", "GenerateSharedSecret", "generateSharedSecret", true, "", "", "", 0},
-	{"schnorr", "schnorrSign", "schnorrSign", false, "SchnorrErr", "(B : Bytes → Bytes)", "B", 0},
-	{"schnorr", "schnorrVerify", "schnorrVerify", false, "SchnorrErr", "(B : Bytes → Bytes)", "B", 0},
-	{"schnorr", "Sign", "schnorrSignRFC6979", false, "SchnorrErr", "(B : Bytes → Bytes)", "B", 16},
+	{"", "fieldToModNScalar", "fieldToModNScalar", true, "", "", "", ""},
+	{"", "modNScalarToField", "modNScalarToField", true, "", "", "", ""},
+	{"", "ScalarBaseMultNonConst", "scalarBaseMultNonConst", true, "", "", "", ""},
+	{"", "sign", "sign", false, "Unit", "", "", ""},
+	{"", "signRFC6979", "signRFC6979", false, "Unit", "", "", "16"},
+	{"", "Signature.Verify", "verify", true, "", "", "", ""},
+	{"", "Signature.RecoverPublicKey", "recoverPublicKey", false, "SigErr", "", "", ""},
+	{"", "GenerateSharedSecret", "generateSharedSecret", true, "", "", "", ""},
+	{"schnorr", "schnorrSign", "schnorrSign", false, "SchnorrErr", "(B : Bytes → Bytes)", "B", ""},
+	{"schnorr", "schnorrVerify", "schnorrVerify", false, "SchnorrErr", "(B : Bytes → Bytes)", "B", ""},
+	{"schnorr", "Sign", "schnorrSignRFC6979", false, "SchnorrErr", "(B : Bytes → Bytes)", "B", "16"},
+	// second tranche
+	{"", "NonceRFC6979", "nonceRFC6979", false, "Unit", "", "", "256"},
+	{"", "generatePrivateKey", "generatePrivateKey", false, "IoErr", "", "", "rand.data.length / 32 + 1"},
+	{"", "PrivKeyFromBytes", "privKeyFromBytes", true, "", "", "", ""},
+	{"", "PrivateKey.PubKey", "pubKey", true, "", "", "", ""},
+	{"", "Signature.ExportCompact", "exportCompact", true, "", "", "", ""},
+	{"", "SignCompact", "signCompact", false, "Unit", "", "", ""},
+	// third tranche: the endomorphism split, NAF recoding and the interleaved double-and-add loop
+	{"", "splitK", "splitKGen", true, "", "", "", ""},
+	{"", "naf", "nafGen", true, "", "", "", ""},
+	{"", "ScalarMultNonConst", "scalarMultNonConst", true, "", "", "", ""},
 }
 
 type d8 struct {
@@ -217,6 +243,12 @@ type d8 struct {
 	results *types.Tuple
 	retK    func(vals []*dv) *dnode // inlined callee: what `return` does
 	loopVar map[types.Object]string // for-i loops: index variable → bound expression it stays below
+	pv      map[string]string       // generated package-level byte constants (shared by all entries)
+	errTerm map[types.Object]string // error variables holding a run-time error value
+	reader  string                  // root of the io.Reader parameter (its final state is part of every result)
+	inFold  int                     // depth of fold bodies being translated (no early exit possible there)
+	facts   map[string]bool         // "a≥b": known order facts between integer terms (dominating guards, max idiom)
+	lenDef  map[string]string       // Lean variable defined as `<bytes term>.length`
 }
 
 func (d *d8) fail(n ast.Node, format string, a ...any) {
@@ -237,6 +269,27 @@ func (d *d8) declare(name, kind string) {
 func (d *d8) wrote(root string) {
 	for _, w := range d.wstack {
 		w[root] = true
+	}
+	// facts and length definitions that mention the rewritten variable are no longer known
+	mentions := func(t string) bool {
+		for _, f := range strings.FieldsFunc(t, func(r rune) bool {
+			return !(r == '_' || r == '?' || (r >= '0' && r <= '9') || (r >= 'a' && r <= 'z') || (r >= 'A' && r <= 'Z'))
+		}) {
+			if f == root {
+				return true
+			}
+		}
+		return false
+	}
+	for f := range d.facts {
+		if mentions(f) {
+			delete(d.facts, f)
+		}
+	}
+	for k, v := range d.lenDef {
+		if k == root || mentions(v) {
+			delete(d.lenDef, k)
+		}
 	}
 }
 
@@ -273,6 +326,8 @@ func (d *d8) kindOf(t types.Type) (string, int) {
 		return "pub", 0
 	case "PrivateKey":
 		return "priv", 0
+	case "nafScalar":
+		return "naf", 0
 	case "Signature":
 		if pk == "schnorr" {
 			return "ssig", 0
@@ -280,6 +335,12 @@ func (d *d8) kindOf(t types.Type) (string, int) {
 		return "sig", 0
 	case "error":
 		return "err", 0
+	case "hmacsha256":
+		return "hmac", 0
+	case "Reader":
+		if pk == "io" {
+			return "reader", 0
+		}
 	}
 	switch u := t.Underlying().(type) {
 	case *types.Basic:
@@ -288,6 +349,8 @@ func (d *d8) kindOf(t types.Type) (string, int) {
 			return "bool", 0
 		case types.Uint8:
 			return "int", 8
+		case types.Uint16:
+			return "int", 16
 		case types.Uint32:
 			return "int", 32
 		case types.Uint64:
@@ -347,8 +410,19 @@ func (d *d8) lvalue(e ast.Expr, pre *[]*dnode) *dloc {
 		if x.Name == "orderAsFieldVal" {
 			return &dloc{root: "N", kind: "field"}
 		}
-		if x.Name == "rfc6979ExtraDataV0" {
-			return &dloc{root: "rfc6979ExtraDataV0", kind: "bytes"}
+		if nm := d.pkgBytes(x); nm != "" {
+			return &dloc{root: nm, kind: "bytes"}
+		}
+		// the endomorphism constants (regenerated by pass T3 into Gen/Consts, wrapped by Model/ScalarMult)
+		switch x.Name {
+		case "endoZ1", "endoZ2", "endoNegB1", "endoNegB2", "endoNegLambda":
+			if o, ok := d.obj(x).(*types.Var); ok && o.Parent() == o.Pkg().Scope() {
+				return &dloc{root: x.Name, kind: "scalar", ro: true}
+			}
+		case "endoBeta":
+			if o, ok := d.obj(x).(*types.Var); ok && o.Parent() == o.Pkg().Scope() {
+				return &dloc{root: x.Name, kind: "field", ro: true}
+			}
 		}
 	case *ast.StarExpr:
 		return d.lvalue(x.X, pre)
@@ -416,7 +490,78 @@ func (d *d8) lvalue(e ast.Expr, pre *[]*dnode) *dloc {
 	return &dloc{root: "0", kind: "int"}
 }
 
+// pkgBytes: a package-level []byte / [N]byte variable with a constant initialiser ([]byte{…}, [N]byte{…},
+// bytes.Repeat([]byte{c}, n)) → a generated definition `pv_<name>`; that nothing writes these variables is C17 (T6)
+func (d *d8) pkgBytes(id *ast.Ident) string {
+	o, ok := d.obj(id).(*types.Var)
+	if !ok || o.Parent() != o.Pkg().Scope() {
+		return ""
+	}
+	if k, _ := d.kindOf(o.Type()); k != "bytes" {
+		return ""
+	}
+	name := "pv_" + id.Name
+	if _, done := d.pv[name]; done {
+		return name
+	}
+	for _, p := range d.pkgs {
+		if p.pkg.Path() != o.Pkg().Path() {
+			continue
+		}
+		for _, f := range p.files {
+			for _, dcl := range f.Decls {
+				gd, ok := dcl.(*ast.GenDecl)
+				if !ok || gd.Tok != token.VAR {
+					continue
+				}
+				for _, sp := range gd.Specs {
+					vs := sp.(*ast.ValueSpec)
+					for i, nm := range vs.Names {
+						if nm.Name != id.Name || i >= len(vs.Values) {
+							continue
+						}
+						elems := func(cl *ast.CompositeLit) ([]string, bool) {
+							var out []string
+							for _, el := range cl.Elts {
+								tv, ok := p.info.Types[el]
+								if !ok || tv.Value == nil {
+									return nil, false
+								}
+								out = append(out, tv.Value.ExactString())
+							}
+							return out, true
+						}
+						switch v := vs.Values[i].(type) {
+						case *ast.CompositeLit:
+							if es, ok := elems(v); ok {
+								d.pv[name] = "[" + strings.Join(es, ", ") + "]"
+								return name
+							}
+						case *ast.CallExpr:
+							if sel, ok := v.Fun.(*ast.SelectorExpr); ok && sel.Sel.Name == "Repeat" && len(v.Args) == 2 {
+								if cl, ok := v.Args[0].(*ast.CompositeLit); ok {
+									es, ok1 := elems(cl)
+									tv, ok2 := p.info.Types[v.Args[1]]
+									if ok1 && len(es) == 1 && ok2 && tv.Value != nil {
+										d.pv[name] = "List.replicate " + tv.Value.ExactString() + " " + es[0]
+										return name
+									}
+								}
+							}
+						}
+					}
+				}
+			}
+		}
+	}
+	return ""
+}
+
 func (d *d8) write(l *dloc, v string, pre *[]*dnode) {
+	if l.ro {
+		d.fail(d8nil(), "write to the package-level constant %s", l.root)
+		return
+	}
 	if l.lo != "" {
 		d.fail(d8nil(), "write to a sub-slice outside copy/PutBytes")
 		return
@@ -448,6 +593,8 @@ func pow2(width int) string {
 	switch width {
 	case 8:
 		return "256"
+	case 16:
+		return "65536"
 	case 32:
 		return "4294967296"
 	case 64:
@@ -537,6 +684,11 @@ func (d *d8) expr(e ast.Expr, pre *[]*dnode) *dv {
 			}
 		}
 		base := d.expr(x.X, pre)
+		if base.kind == "bytes" {
+			// b[i] with a computed index (an index outside the slice would panic in Go; not modelled: see DESIGN)
+			i := d.intTerm(x.Index, pre)
+			return &dv{kind: "int", term: "(" + base.term + ".getD " + i + " 0).toNat", width: 8}
+		}
 		if base.kind == "tablerow" {
 			j := d.intTerm(x.Index, pre)
 			nm := d.tmp("pt")
@@ -639,6 +791,20 @@ func (d *d8) binary(x *ast.BinaryExpr, pre *[]*dnode) *dv {
 		return &dv{kind: "bool", term: "decide (" + l + " " + op + " " + r + ")"}
 	case token.ADD:
 		return &dv{kind: "int", term: wrapW("("+d.intTerm(x.X, pre)+" + "+d.intTerm(x.Y, pre)+")", w), width: w}
+	case token.SUB:
+		// Go's int may go negative, ℕ cannot: the result is guarded, `.undef` marks the assumption failing
+		l, r := d.intTerm(x.X, pre), d.intTerm(x.Y, pre)
+		if w != 0 { // unsigned sized type: exact modular subtraction
+			return &dv{kind: "int", term: "((" + l + " + " + pow2(w) + " - " + r + ") % " + pow2(w) + ")", width: w}
+		}
+		if d.facts[l+"≥"+r] {
+			return &dv{kind: "int", term: "(" + l + " - " + r + ")"}
+		}
+		if d.ent.total || d.inFold > 0 {
+			d.fail(x, "int subtraction %s - %s that no dominating guard keeps non-negative (total entry / loop body)", l, r)
+		}
+		*pre = append(*pre, &dnode{kind: "guard", term: "decide (" + l + " < " + r + ")", name: d.rtTerm(".undef")})
+		return &dv{kind: "int", term: "(" + l + " - " + r + ")"}
 	case token.MUL:
 		return &dv{kind: "int", term: wrapW("("+d.intTerm(x.X, pre)+" * "+d.intTerm(x.Y, pre)+")", w), width: w}
 	case token.SHL:
@@ -715,7 +881,7 @@ func (d *d8) call(x *ast.CallExpr, pre *[]*dnode) *dv {
 	// conversions and builtins
 	if id, ok := x.Fun.(*ast.Ident); ok {
 		switch id.Name {
-		case "byte", "uint8", "uint32", "uint64", "int":
+		case "byte", "uint8", "uint16", "uint32", "uint64", "int":
 			if _, isType := d.p.info.Uses[id].(*types.TypeName); isType && len(x.Args) == 1 {
 				v := d.expr(x.Args[0], pre)
 				_, w := d.kindOf(d.p.info.Types[x].Type)
@@ -761,7 +927,7 @@ func (d *d8) call(x *ast.CallExpr, pre *[]*dnode) *dv {
 	arg := func(i int) *dv { return d.expr(x.Args[i], pre) }
 	argLoc := func(i int) *dloc { return d.lvalue(x.Args[i], pre) }
 	var recv *dloc
-	if recvX != nil && (rk == "scalar" || rk == "field" || rk == "point") {
+	if recvX != nil && (rk == "scalar" || rk == "field" || rk == "point" || rk == "hmac" || rk == "naf") {
 		recv = d.lvalue(recvX, pre)
 	}
 	set := func(l *dloc, v string) *dv {
@@ -870,6 +1036,33 @@ func (d *d8) call(x *ast.CallExpr, pre *[]*dnode) *dv {
 		return &dv{kind: "bool", term: "(isOnCurveM " + arg(0).term + " " + arg(1).term + ")"}
 	case "s256BytePoints":
 		return &dv{kind: "table"}
+	// ---- the resettable HMAC-SHA256 object of nonce.go (model: Secp.Model.HmacObj)
+	case "newHMACSHA256":
+		return &dv{kind: "hmac", term: "hmacNew " + bytesArg(0)}
+	case "hmacsha256.Write":
+		set(recv, recv.read()+".write "+bytesArg(0))
+		return &dv{kind: "unit"}
+	case "hmacsha256.Reset":
+		set(recv, recv.read()+".reset")
+		return &dv{kind: "unit"}
+	case "hmacsha256.ResetKey":
+		set(recv, recv.read()+".resetKey "+bytesArg(0))
+		return &dv{kind: "unit"}
+	case "hmacsha256.Sum":
+		if len(recv.path) != 0 {
+			d.fail(x, "Sum on a nested hasher")
+		}
+		t := d.tmp("sum")
+		*pre = append(*pre, &dnode{kind: "let", name: "(" + t + ", " + recv.root + ")", term: recv.read() + ".sum"})
+		d.declare(t, "bytes")
+		d.wrote(recv.root)
+		return &dv{kind: "bytes", term: t}
+	case "mul512Rsh320Round":
+		return &dv{kind: "scalar", term: "(mul512Rsh320Round " + arg(0).term + " " + arg(1).term + ")"}
+	case "FieldVal.Negate":
+		return set(recv, "fneg "+recv.read())
+	case "ModNScalar.IsZeroBit":
+		return &dv{kind: "int", term: "(if " + recv.read() + " == 0 then 1 else 0)", width: 32}
 	// ---- hashing / nonces / housekeeping
 	case "Sum256":
 		return &dv{kind: "bytes", term: "(B " + bytesArg(0) + ")"}
@@ -1085,10 +1278,45 @@ func (d *d8) simple(s ast.Stmt, pre *[]*dnode) bool {
 					if v.known != nil {
 						d.known[o] = *v.known
 					}
+					if v.kind == "int" {
+						if _, isIdent := st.Rhs[0].(*ast.Ident); isIdent {
+							d.facts[name+"≥"+v.term] = true
+						}
+						if strings.HasSuffix(v.term, ".length") {
+							d.lenDef[name] = strings.TrimSuffix(v.term, ".length")
+						}
+					}
 					return false
 				}
 				if isPtr {
 					return true // re-pointing a pointer variable
+				}
+				if ix, ok := st.Lhs[0].(*ast.IndexExpr); ok {
+					// b[c] = v on a byte array with a constant index inside the array
+					base := d.lvalue(ix.X, pre)
+					c, isConst := d.constVal(ix.Index)
+					arr, isArr := d.p.info.Types[ix.X].Type.Underlying().(*types.Array)
+					var ci int64
+					fmt.Sscan(c, &ci)
+					if base.kind == "bytes" && base.lo == "" && !isConst && isArr {
+						// b[i] = v with a computed index: List.set (an index outside the array would panic in Go; not modelled)
+						i := d.intTerm(ix.Index, pre)
+						v := d.expr(st.Rhs[0], pre)
+						if v.kind != "int" || v.width != 8 {
+							return true
+						}
+						d.write(base, "("+base.read()+".set "+i+" (UInt8.ofNat "+v.term+"))", pre)
+						return false
+					}
+					if base.kind != "bytes" || base.lo != "" || !isConst || !isArr || ci < 0 || ci >= arr.Len() {
+						return true
+					}
+					v := d.expr(st.Rhs[0], pre)
+					if v.kind != "int" || v.width != 8 {
+						return true
+					}
+					d.writeBytesAt(&dloc{root: base.root, path: base.path, kind: "bytes", lo: c, hi: fmt.Sprint(ci + 1)}, "[UInt8.ofNat "+v.term+"]", "1", pre)
+					return false
 				}
 				v := d.expr(st.Rhs[0], pre)
 				if leanType[v.kind] == "" {
@@ -1109,6 +1337,9 @@ func (d *d8) simple(s ast.Stmt, pre *[]*dnode) bool {
 				d.write(l, t, pre)
 				return false
 			}
+		}
+		if len(st.Lhs) == len(st.Rhs) && len(st.Lhs) >= 2 && (st.Tok == token.DEFINE || st.Tok == token.ASSIGN) {
+			return d.multiAssign(st, pre)
 		}
 		// x, y := f(...) for TOTAL entries and primitives returning pairs
 		if len(st.Lhs) == 2 && len(st.Rhs) == 1 && st.Tok == token.DEFINE {
@@ -1134,6 +1365,78 @@ func (d *d8) simple(s ast.Stmt, pre *[]*dnode) bool {
 		return true
 	}
 	return true
+}
+
+// multiAssign: a, b := x, y / a, b = x, y.  Go evaluates the right-hand sides first: they are bound to temporaries
+// whenever one of them mentions a name the statement assigns.  A swap of two POINTER variables is translated as a
+// swap of the two objects, which is the same thing when nothing else points at them (checked).
+func (d *d8) multiAssign(st *ast.AssignStmt, pre *[]*dnode) bool {
+	allPtr := true
+	for _, r := range st.Rhs {
+		if _, isPtr := d.p.info.Types[r].Type.(*types.Pointer); !isPtr {
+			allPtr = false
+		}
+	}
+	if allPtr && st.Tok == token.ASSIGN && len(st.Lhs) == 2 {
+		l0, ok0 := st.Lhs[0].(*ast.Ident)
+		l1, ok1 := st.Lhs[1].(*ast.Ident)
+		r0, ok2 := st.Rhs[0].(*ast.Ident)
+		r1, ok3 := st.Rhs[1].(*ast.Ident)
+		if ok0 && ok1 && ok2 && ok3 && l0.Name == r1.Name && l1.Name == r0.Name {
+			a, b := d.env[d.obj(l0)], d.env[d.obj(l1)]
+			if a == nil || b == nil || len(a.path) != 0 || len(b.path) != 0 || a.root == b.root || a.ro || b.ro {
+				return true
+			}
+			for o, l := range d.env { // no third name for either object
+				if (l.root == a.root || l.root == b.root) && o != d.obj(l0) && o != d.obj(l1) {
+					return true
+				}
+			}
+			*pre = append(*pre, &dnode{kind: "let", name: "(" + a.root + ", " + b.root + ")", term: "(" + b.root + ", " + a.root + ")"})
+			d.wrote(a.root)
+			d.wrote(b.root)
+			return false
+		}
+		return true
+	}
+	if allPtr && st.Tok == token.DEFINE {
+		for i, l := range st.Lhs {
+			id, ok := l.(*ast.Ident)
+			if !ok {
+				return true
+			}
+			d.env[d.p.info.Defs[id]] = d.lvalue(st.Rhs[i], pre)
+		}
+		return false
+	}
+	if allPtr {
+		return true
+	}
+	// values: evaluate all right-hand sides, then assign
+	vals := make([]*dv, len(st.Rhs))
+	for i, r := range st.Rhs {
+		vals[i] = d.expr(r, pre)
+		if leanType[vals[i].kind] == "" {
+			return true
+		}
+		t := d.tmp("rhs")
+		*pre = append(*pre, &dnode{kind: "let", name: t, term: vals[i].term})
+		d.declare(t, vals[i].kind)
+		vals[i] = &dv{kind: vals[i].kind, term: t, width: vals[i].width}
+	}
+	for i, l := range st.Lhs {
+		id, isId := l.(*ast.Ident)
+		if isId && st.Tok == token.DEFINE && d.p.info.Defs[id] != nil {
+			name := d.fresh(id.Name)
+			*pre = append(*pre, &dnode{kind: "let", name: name, term: vals[i].term})
+			d.declare(name, vals[i].kind)
+			d.wrote(name)
+			d.env[d.p.info.Defs[id]] = &dloc{root: name, kind: vals[i].kind}
+			continue
+		}
+		d.write(d.lvalue(l, pre), vals[i].term, pre)
+	}
+	return false
 }
 
 // fresh: Lean name for a newly declared Go variable (suffix when the name is already a live Lean variable of another object)
@@ -1170,10 +1473,26 @@ func hasTerminator(list []ast.Stmt) bool {
 
 func chain(pre []*dnode, tail *dnode) *dnode {
 	for i := len(pre) - 1; i >= 0; i-- {
-		pre[i].a = tail
+		pre[i].a = tail // let and guard nodes both continue in .a
 		tail = pre[i]
 	}
 	return tail
+}
+
+type d8aux struct {
+	facts  map[string]bool
+	lenDef map[string]string
+}
+
+func (d *d8) saveAux() d8aux {
+	a := d8aux{map[string]bool{}, map[string]string{}}
+	for k, v := range d.facts {
+		a.facts[k] = v
+	}
+	for k, v := range d.lenDef {
+		a.lenDef[k] = v
+	}
+	return a
 }
 
 func (d *d8) snapshot() (map[types.Object]*dloc, map[types.Object]bool, []string, map[string]string) {
@@ -1199,9 +1518,67 @@ func (d *d8) restore(e map[types.Object]*dloc, kn map[types.Object]bool, sc []st
 // branch: translate a statement list in a copy of the state
 func (d *d8) branch(list []ast.Stmt, k func() *dnode) *dnode {
 	e, kn, sc, st := d.snapshot()
+	a := d.saveAux()
 	n := d.stmts(list, k)
 	d.restore(e, kn, sc, st)
+	d.facts, d.lenDef = a.facts, a.lenDef
 	return n
+}
+
+// branchWith: a branch translated under extra order facts (those implied by the condition that guards it)
+func (d *d8) branchWith(facts []string, list []ast.Stmt, k func() *dnode) *dnode {
+	a := d.saveAux()
+	for _, f := range facts {
+		d.facts[f] = true
+	}
+	n := d.branch(list, func() *dnode {
+		// the continuation does not inherit the branch's facts
+		saved := d.saveAux()
+		d.facts, d.lenDef = map[string]bool{}, map[string]string{}
+		for k2, v := range a.facts {
+			if saved.facts[k2] { // known before the branch and not invalidated inside it
+				d.facts[k2] = v
+			}
+		}
+		for k2, v := range a.lenDef {
+			if saved.lenDef[k2] == v {
+				d.lenDef[k2] = v
+			}
+		}
+		r := k()
+		d.facts, d.lenDef = saved.facts, saved.lenDef
+		return r
+	})
+	d.facts, d.lenDef = a.facts, a.lenDef
+	return n
+}
+
+// condFacts: order facts implied by a condition being true
+func (d *d8) condFacts(c ast.Expr) []string {
+	b, ok := c.(*ast.BinaryExpr)
+	if !ok {
+		return nil
+	}
+	var pre []*dnode
+	switch b.Op {
+	case token.GEQ, token.GTR:
+		kx, _ := d.kindOf(d.p.info.Types[b.X].Type)
+		if kx != "int" {
+			return nil
+		}
+		l, r := d.intTerm(b.X, &pre), d.intTerm(b.Y, &pre)
+		if len(pre) > 0 {
+			return nil
+		}
+		out := []string{l + "≥" + r}
+		if b.Op == token.GTR && r == "0" {
+			out = append(out, l+"≥1")
+		}
+		return out
+	case token.LAND:
+		return append(d.condFacts(b.X), d.condFacts(b.Y)...)
+	}
+	return nil
 }
 
 func (d *d8) retNode(st *ast.ReturnStmt, pre *[]*dnode) *dnode {
@@ -1225,17 +1602,22 @@ func (d *d8) retNode(st *ast.ReturnStmt, pre *[]*dnode) *dnode {
 		return tupleOf(parts)
 	}
 	if d.ent.total {
-		return &dnode{kind: "ret", term: val(res)}
+		return d.rt(val(res))
 	}
 	switch {
 	case lastK == "err":
 		last := res[n-1]
 		if id, ok := last.(*ast.Ident); ok && id.Name == "nil" {
-			return &dnode{kind: "ret", term: ".ok " + val(res[:n-1])}
+			return d.rt(".ok " + val(res[:n-1]))
 		}
 		if call, ok := last.(*ast.CallExpr); ok {
 			if k := d.errKind(call); k != "" {
-				return &dnode{kind: "ret", term: ".err ." + k}
+				return d.rt(".err ." + k)
+			}
+		}
+		if id, ok := last.(*ast.Ident); ok {
+			if t, ok := d.errTerm[d.obj(id)]; ok {
+				return d.rt(".err " + t)
 			}
 		}
 		d.fail(st, "error result outside the T8 subset")
@@ -1244,19 +1626,19 @@ func (d *d8) retNode(st *ast.ReturnStmt, pre *[]*dnode) *dnode {
 		if b.known == nil {
 			d.fail(st, "(T, bool) result with a computed flag")
 		} else if *b.known {
-			return &dnode{kind: "ret", term: ".ok " + val(res[:1])}
+			return d.rt(".ok " + val(res[:1]))
 		} else {
-			return &dnode{kind: "ret", term: ".err ()"}
+			return d.rt(".err ()")
 		}
 	default:
-		return &dnode{kind: "ret", term: ".ok " + val(res)}
+		return d.rt(".ok " + val(res))
 	}
-	return &dnode{kind: "ret", term: ".panic"}
+	return d.rt(".panic")
 }
 
 func (d *d8) stmts(list []ast.Stmt, k func() *dnode) *dnode {
 	if d.err != nil {
-		return &dnode{kind: "ret", term: ".panic"}
+		return d.rt(".panic")
 	}
 	if len(list) == 0 {
 		return k()
@@ -1290,7 +1672,7 @@ func (d *d8) stmts(list []ast.Stmt, k func() *dnode) *dnode {
 				if d.ent.total {
 					d.fail(st, "panic in a total entry")
 				}
-				return &dnode{kind: "ret", term: ".panic"}
+				return d.rt(".panic")
 			}
 		}
 		if !d.simple(s, &pre) {
@@ -1311,7 +1693,7 @@ func (d *d8) stmts(list []ast.Stmt, k func() *dnode) *dnode {
 		}
 		d.fail(s, "statement %T outside the T8 subset", s)
 	}
-	return &dnode{kind: "ret", term: ".panic"}
+	return d.rt(".panic")
 }
 
 // fallibleAssign: `x, err := entry(...)`, `x, ok := entry(...)`, `x := entry(...)`, `k := NonceRFC6979(...)`
@@ -1344,7 +1726,7 @@ func (d *d8) fallibleAssign(st *ast.AssignStmt, next func() *dnode) *dnode {
 		d.env[d.p.info.Defs[id]] = &dloc{root: name, kind: "scalar"}
 		body := next()
 		return chain(pre, &dnode{kind: "match", term: "nonceM 256 " + strings.Join(a, " "),
-			arms: []darm{{"none", &dnode{kind: "ret", term: ".fuel"}}, {"some " + name, body}}})
+			arms: []darm{{"none", d.rt(".fuel")}, {"some " + name, body}}})
 	}
 	v := d.expr(call, &pre)
 	if v.kind != "entry" || d8entries[v.width].total {
@@ -1430,7 +1812,7 @@ func (d *d8) fallibleAssign(st *ast.AssignStmt, next func() *dnode) *dnode {
 	if flagged {
 		errBody = next()
 	} else {
-		errBody = &dnode{kind: "ret", term: ".err e"}
+		errBody = d.rt(".err e")
 		errPat = ".err e"
 		if ent.errT != d.ent.errT {
 			d.fail(st, "error type of callee differs")
@@ -1439,8 +1821,9 @@ func (d *d8) fallibleAssign(st *ast.AssignStmt, next func() *dnode) *dnode {
 	d.restore(e1, kn1, sc1, st1)
 	d.restore(e0, kn0, sc0, st0)
 	return chain(pre, &dnode{kind: "match", term: v.term, arms: []darm{
-		{".panic", &dnode{kind: "ret", term: ".panic"}},
-		{".fuel", &dnode{kind: "ret", term: ".fuel"}},
+		{".panic", d.rt(".panic")},
+		{".fuel", d.rt(".fuel")},
+		{".undef", d.rt(".undef")},
 		{errPat, errBody},
 		{".ok " + tupleOf(names), okBody},
 	}})
@@ -1461,6 +1844,33 @@ func (d *d8) ifStmt(st *ast.IfStmt, next func() *dnode) *dnode {
 					good := next()
 					return chain(pre, &dnode{kind: "match", term: "decompressYJ " + x.term + " " + odd.term,
 						arms: []darm{{"none", bad}, {"some " + y.root, good}}})
+				}
+			}
+		}
+	}
+	// `if _, err := io.ReadFull(r, buf[:]); err != nil { … }` with a 32-byte buffer (model: readFull32)
+	if as, ok := st.Init.(*ast.AssignStmt); ok && len(as.Rhs) == 1 && len(as.Lhs) == 2 {
+		if call, ok := as.Rhs[0].(*ast.CallExpr); ok {
+			if sel, ok := call.Fun.(*ast.SelectorExpr); ok && sel.Sel.Name == "ReadFull" && len(call.Args) == 2 {
+				cond, ok2 := st.Cond.(*ast.BinaryExpr)
+				errId, ok3 := as.Lhs[1].(*ast.Ident)
+				rd := d.lvalue(call.Args[0], &pre)
+				buf := d.lvalue(call.Args[1], &pre)
+				arr, isArr := d.p.info.Types[call.Args[1].(*ast.SliceExpr).X].Type.Underlying().(*types.Array)
+				if ok2 && ok3 && cond.Op == token.NEQ && st.Else == nil && rd.kind == "reader" && buf.lo == "" && isArr && arr.Len() == 32 {
+					eo := d.p.info.Defs[errId]
+					e0, kn0, sc0, st0 := d.snapshot()
+					d.env[eo] = &dloc{root: "?err", kind: "err"}
+					d.known[eo] = true
+					d.errTerm[eo] = "ioe"
+					bad := d.stmts(st.Body.List, next)
+					d.restore(e0, kn0, sc0, st0)
+					delete(d.errTerm, eo)
+					d.wrote(buf.root)
+					d.wrote(rd.root)
+					good := next()
+					return chain(pre, &dnode{kind: "match", term: "readFull32 " + rd.read(),
+						arms: []darm{{"(.error ioe, " + rd.root + ")", bad}, {"(.ok " + buf.root + ", " + rd.root + ")", good}}})
 				}
 			}
 		}
@@ -1487,16 +1897,37 @@ func (d *d8) ifStmt(st *ast.IfStmt, next func() *dnode) *dnode {
 		}
 		return chain(pre, d.stmts(elseList, next))
 	}
+	cf := d.condFacts(st.Cond)
 	if hasTerminator(st.Body.List) || hasTerminator(elseList) {
-		a := d.branch(st.Body.List, next)
+		a := d.branchWith(cf, st.Body.List, next)
 		b := d.branch(elseList, next)
 		return chain(pre, &dnode{kind: "if", term: c.term, a: a, b: b})
+	}
+	// the max idiom `if x < B { x = B }`: afterwards x ≥ B, and everything x was known to exceed it still exceeds
+	var maxFacts []string
+	if bc, ok := st.Cond.(*ast.BinaryExpr); ok && bc.Op == token.LSS && st.Else == nil && len(st.Body.List) == 1 {
+		if as, ok := st.Body.List[0].(*ast.AssignStmt); ok && as.Tok == token.ASSIGN && len(as.Lhs) == 1 {
+			xi, ok1 := bc.X.(*ast.Ident)
+			li, ok2 := as.Lhs[0].(*ast.Ident)
+			if ok1 && ok2 && xi.Name == li.Name && exprString(bc.Y) == exprString(as.Rhs[0]) {
+				var p2 []*dnode
+				xt, bt := d.intTerm(bc.X, &p2), d.intTerm(bc.Y, &p2)
+				if len(p2) == 0 {
+					maxFacts = append(maxFacts, xt+"≥"+bt)
+					for f := range d.facts {
+						if strings.HasPrefix(f, xt+"≥") {
+							maxFacts = append(maxFacts, f)
+						}
+					}
+				}
+			}
+		}
 	}
 	// both branches fall through: re-bind the locations they write
 	W := &[]string{}
 	envBefore := fmt.Sprint(len(d.env))
 	d.wstack = append(d.wstack, map[string]bool{})
-	a := d.branch(st.Body.List, func() *dnode { return &dnode{kind: "tuple", names: W} })
+	a := d.branchWith(cf, st.Body.List, func() *dnode { return &dnode{kind: "tuple", names: W} })
 	b := d.branch(elseList, func() *dnode { return &dnode{kind: "tuple", names: W} })
 	w := d.wstack[len(d.wstack)-1]
 	d.wstack = d.wstack[:len(d.wstack)-1]
@@ -1513,29 +1944,108 @@ func (d *d8) ifStmt(st *ast.IfStmt, next func() *dnode) *dnode {
 	for _, n := range *W {
 		d.wrote(n)
 	}
+	for _, f := range maxFacts {
+		d.facts[f] = true
+	}
 	return chain(pre, &dnode{kind: "lett", names: W, a: &dnode{kind: "if", term: c.term, a: a, b: b}, b: next()})
 }
 
 func (d *d8) forStmt(st *ast.ForStmt, next func() *dnode) *dnode {
 	var pre []*dnode
-	// (1) for i := 0; i < len(b); i++ { body without terminators } → foldl
+	// (0) for len(x) > 0 && x[0] == 0x00 { x = x[1:] } → stripZeros
+	if st.Init == nil && st.Post == nil && st.Cond != nil && len(st.Body.List) == 1 {
+		if c, ok := st.Cond.(*ast.BinaryExpr); ok && c.Op == token.LAND {
+			if as, ok := st.Body.List[0].(*ast.AssignStmt); ok && as.Tok == token.ASSIGN && len(as.Lhs) == 1 {
+				if id, ok := as.Lhs[0].(*ast.Ident); ok {
+					n := id.Name
+					isN := func(e ast.Expr) bool { x, ok := e.(*ast.Ident); return ok && x.Name == n }
+					isC := func(e ast.Expr, v string) bool { c, ok := d.constVal(e); return ok && c == v }
+					lenPos := func(e ast.Expr) bool {
+						b, ok := e.(*ast.BinaryExpr)
+						if !ok || b.Op != token.GTR || !isC(b.Y, "0") {
+							return false
+						}
+						call, ok := b.X.(*ast.CallExpr)
+						if !ok || len(call.Args) != 1 || !isN(call.Args[0]) {
+							return false
+						}
+						f, ok := call.Fun.(*ast.Ident)
+						return ok && f.Name == "len"
+					}
+					firstZero := func(e ast.Expr) bool {
+						b, ok := e.(*ast.BinaryExpr)
+						if !ok || b.Op != token.EQL || !isC(b.Y, "0") {
+							return false
+						}
+						ix, ok := b.X.(*ast.IndexExpr)
+						return ok && isN(ix.X) && isC(ix.Index, "0")
+					}
+					tail := func(e ast.Expr) bool {
+						sl, ok := e.(*ast.SliceExpr)
+						return ok && isN(sl.X) && sl.High == nil && sl.Max == nil && sl.Low != nil && isC(sl.Low, "1")
+					}
+					if lenPos(c.X) && firstZero(c.Y) && tail(as.Rhs[0]) {
+						if sl, ok := as.Rhs[0].(*ast.SliceExpr); ok && sl.High == nil && sl.Low != nil {
+							l := d.lvalue(id, &pre)
+							if l.kind == "bytes" && l.lo == "" {
+								d.write(l, "stripZeros "+l.read(), &pre)
+								return chain(pre, next())
+							}
+						}
+					}
+				}
+			}
+		}
+	}
+	// (1) loops without early exit over a sequence known up front → List.foldl
 	if st.Cond != nil && st.Init != nil && st.Post != nil && !hasTerminator(st.Body.List) {
 		as, ok1 := st.Init.(*ast.AssignStmt)
 		cond, ok2 := st.Cond.(*ast.BinaryExpr)
-		inc, ok3 := st.Post.(*ast.IncDecStmt)
-		if ok1 && ok2 && ok3 && len(as.Lhs) == 1 && cond.Op == token.LSS && inc.Tok == token.INC {
+		if ok1 && ok2 && len(as.Lhs) == 1 && len(as.Rhs) == 1 && as.Tok == token.DEFINE {
 			id := as.Lhs[0].(*ast.Ident)
-			if c, ok := d.constVal(as.Rhs[0]); ok && c == "0" {
-				bound := d.intTerm(cond.Y, &pre)
-				o := d.p.info.Defs[id]
-				d.loopVar[o] = bound
+			o := d.p.info.Defs[id]
+			_, vw := d.kindOf(o.Type())
+			seq, bound := "", ""
+			inc, isIncDec := st.Post.(*ast.IncDecStmt)
+			condOnVar := func() bool { x, ok := cond.X.(*ast.Ident); return ok && x.Name == id.Name }()
+			switch {
+			case isIncDec && inc.Tok == token.INC && cond.Op == token.LSS && condOnVar:
+				// for i := 0; i < n; i++
+				if c, ok := d.constVal(as.Rhs[0]); ok && c == "0" {
+					bound = d.intTerm(cond.Y, &pre)
+					seq = "(List.range (" + bound + "))"
+				}
+			case isIncDec && inc.Tok == token.DEC && cond.Op == token.GEQ && condOnVar:
+				// for i := n - 1; i >= 0; i--
+				if c, ok := d.constVal(cond.Y); ok && c == "0" {
+					if sub, ok := as.Rhs[0].(*ast.BinaryExpr); ok && sub.Op == token.SUB {
+						if one, ok := d.constVal(sub.Y); ok && one == "1" {
+							bound = d.intTerm(sub.X, &pre)
+							seq = "(List.range (" + bound + ")).reverse"
+						}
+					}
+				}
+			default:
+				// a variable of a sized type stepping through constants: the sequence is computed here
+				if vals, ok := d.constSequence(id.Name, vw, as.Rhs[0], cond, st.Post); ok && condOnVar {
+					seq = "[" + strings.Join(vals, ", ") + "]"
+				}
+			}
+			if seq != "" {
+				if bound != "" {
+					d.loopVar[o] = bound
+				}
+				e, kn, sc, stp := d.snapshot()
+				aux := d.saveAux()
 				d.env[o] = &dloc{root: id.Name, kind: "int"}
+				d.stype[id.Name] = "Nat"
 				W := &[]string{}
 				d.wstack = append(d.wstack, map[string]bool{})
-				e, kn, sc, stp := d.snapshot()
-				d.stype[id.Name] = "Nat"
+				d.inFold++
 				body := d.stmts(st.Body.List, func() *dnode { return &dnode{kind: "tuple", names: W} })
+				d.inFold--
 				d.restore(e, kn, sc, stp)
+				d.facts, d.lenDef = aux.facts, aux.lenDef
 				w := d.wstack[len(d.wstack)-1]
 				d.wstack = d.wstack[:len(d.wstack)-1]
 				for n := range w {
@@ -1548,28 +2058,28 @@ func (d *d8) forStmt(st *ast.ForStmt, next func() *dnode) *dnode {
 				for _, n := range *W {
 					d.wrote(n)
 				}
-				var sb strings.Builder
-				body.print(&sb, "      ")
-				fold := fmt.Sprintf("(List.range (%s)).foldl (fun %s %s =>\n%s    ) %s", bound, tupleOf(*W), id.Name, sb.String(), tupleOf(*W))
-				return chain(pre, &dnode{kind: "let", name: tupleOf(*W), term: fold, a: next()})
+				if len(*W) == 0 {
+					return chain(pre, next())
+				}
+				return chain(pre, &dnode{kind: "fold", names: W, term: seq, name: id.Name, a: body, b: next()})
 			}
 		}
 	}
 	// (2) for init; ; post { … } : recursion on fuel, a top-level auxiliary definition
-	if st.Cond == nil && d.ent.fuel > 0 {
-		var vars []string
-		var inits []string
+	if d.ent.fuel != "" {
+		var vars, inits, vkinds []string
 		if st.Init != nil {
 			as, ok := st.Init.(*ast.AssignStmt)
 			if !ok || as.Tok != token.DEFINE || len(as.Lhs) != 1 {
 				d.fail(st, "loop initialiser")
-				return &dnode{kind: "ret", term: ".panic"}
+				return d.rt(".panic")
 			}
 			id := as.Lhs[0].(*ast.Ident)
 			v := d.expr(as.Rhs[0], &pre)
 			vars = append(vars, id.Name)
 			inits = append(inits, v.term)
-			d.env[d.p.info.Defs[id]] = &dloc{root: id.Name, kind: "int"}
+			vkinds = append(vkinds, v.kind)
+			d.env[d.p.info.Defs[id]] = &dloc{root: id.Name, kind: v.kind}
 		}
 		// parameters: every Lean variable in scope
 		params := append([]string{}, d.scope...)
@@ -1579,8 +2089,8 @@ func (d *d8) forStmt(st *ast.ForStmt, next func() *dnode) *dnode {
 		}
 		aux := d.ent.lean + "_loop"
 		e, kn, sc, stp := d.snapshot()
-		for _, v := range vars {
-			d.declare(v, "int")
+		for i, v := range vars {
+			d.declare(v, vkinds[i])
 		}
 		callNext := func() *dnode {
 			var pp []*dnode
@@ -1590,16 +2100,35 @@ func (d *d8) forStmt(st *ast.ForStmt, next func() *dnode) *dnode {
 				}
 			}
 			args := append([]string{}, params...)
-			return chain(pp, &dnode{kind: "ret", term: aux + " " + strings.Join(append(extraArgs(d.ent), args...), " ") + " fuel " + strings.Join(vars, " ")})
+			return chain(pp, d.rt0(aux+" "+strings.Join(append(extraArgs(d.ent), args...), " ")+" fuel "+strings.Join(vars, " ")))
 		}
 		savedCont := d.cont
 		d.cont = callNext
-		body := d.stmts(st.Body.List, callNext)
+		var body *dnode
+		if st.Cond != nil {
+			var cpre []*dnode
+			c := d.expr(st.Cond, &cpre)
+			if c.kind != "bool" {
+				d.fail(st.Cond, "loop condition of kind %s", c.kind)
+			}
+			in := d.branch(st.Body.List, callNext)
+			d.cont = savedCont
+			out := d.branch(nil, next) // what follows the loop, inside the auxiliary definition
+			body = chain(cpre, &dnode{kind: "if", term: c.term, a: in, b: out})
+		} else {
+			body = d.stmts(st.Body.List, callNext)
+		}
 		d.cont = savedCont
 		d.restore(e, kn, sc, stp)
 		var sb strings.Builder
-		fmt.Fprintf(&sb, "def %s %s %s : Nat → %s%s\n", aux, d.ent.extra, strings.Join(psig, " "), strings.Repeat("Nat → ", len(vars)), d.retType())
-		fmt.Fprintf(&sb, "  | 0%s => .fuel\n", strings.Repeat(", _", len(vars)))
+		fmt.Fprintf(&sb, "def %s %s %s : Nat → %s%s\n", aux, d.ent.extra, strings.Join(psig, " "), func() string {
+			s := ""
+			for _, k := range vkinds {
+				s += leanType[k] + " → "
+			}
+			return s
+		}(), d.retType())
+		fmt.Fprintf(&sb, "  | 0%s => %s\n", strings.Repeat(", _", len(vars)), d.rtTerm(".fuel"))
 		fmt.Fprintf(&sb, "  | fuel+1%s => (\n", func() string {
 			s := ""
 			for _, v := range vars {
@@ -1610,10 +2139,109 @@ func (d *d8) forStmt(st *ast.ForStmt, next func() *dnode) *dnode {
 		body.print(&sb, "    ")
 		sb.WriteString("  )\n")
 		d.aux = append(d.aux, sb.String())
-		return chain(pre, &dnode{kind: "ret", term: fmt.Sprintf("%s %s %d %s", aux, strings.Join(append(extraArgs(d.ent), params...), " "), d.ent.fuel, strings.Join(inits, " "))})
+		return chain(pre, d.rt0(fmt.Sprintf("%s %s (%s) %s", aux, strings.Join(append(extraArgs(d.ent), params...), " "), d.ent.fuel, strings.Join(inits, " "))))
 	}
 	d.fail(st, "loop form outside the T8 subset")
-	return &dnode{kind: "ret", term: ".panic"}
+	return d.rt(".panic")
+}
+
+// rt: a result; when the entry reads from an io.Reader the reader's final state travels with every result
+func (d *d8) rt(term string) *dnode {
+	if d.reader != "" {
+		term = "(" + term + ", " + d.reader + ")"
+	}
+	return &dnode{kind: "ret", term: term}
+}
+
+// rt0: a tail call of the entry's own loop function (its result already carries the reader)
+func (d *d8) rt0(term string) *dnode { return &dnode{kind: "ret", term: term} }
+
+func (d *d8) rtTerm(term string) string {
+	if d.reader != "" {
+		return "(" + term + ", " + d.reader + ")"
+	}
+	return term
+}
+
+// constSequence: the values a loop variable of an unsigned sized type takes when it starts at a constant, is tested
+// against a constant and stepped by a constant (for mask := uint8(1 << 7); mask > 0; mask >>= 1)
+func (d *d8) constSequence(name string, width int, init ast.Expr, cond *ast.BinaryExpr, post ast.Stmt) ([]string, bool) {
+	if width == 0 || width > 32 {
+		return nil, false
+	}
+	iv, ok := d.constVal(init)
+	cv, ok2 := d.constVal(cond.Y)
+	if !ok || !ok2 {
+		return nil, false
+	}
+	var v, c uint64
+	fmt.Sscan(iv, &v)
+	fmt.Sscan(cv, &c)
+	mask := uint64(1)<<uint(width) - 1
+	step := func(x uint64) (uint64, bool) {
+		switch p := post.(type) {
+		case *ast.IncDecStmt:
+			if id, ok := p.X.(*ast.Ident); !ok || id.Name != name {
+				return 0, false
+			}
+			if p.Tok == token.INC {
+				return (x + 1) & mask, true
+			}
+			return (x - 1) & mask, true
+		case *ast.AssignStmt:
+			if len(p.Lhs) != 1 || len(p.Rhs) != 1 {
+				return 0, false
+			}
+			if id, ok := p.Lhs[0].(*ast.Ident); !ok || id.Name != name {
+				return 0, false
+			}
+			kv, ok := d.constVal(p.Rhs[0])
+			if !ok {
+				return 0, false
+			}
+			var k uint64
+			fmt.Sscan(kv, &k)
+			switch p.Tok {
+			case token.SHR_ASSIGN:
+				return x >> k, true
+			case token.SHL_ASSIGN:
+				return (x << k) & mask, true
+			case token.ADD_ASSIGN:
+				return (x + k) & mask, true
+			case token.SUB_ASSIGN:
+				return (x - k) & mask, true
+			}
+		}
+		return 0, false
+	}
+	test := func(x uint64) bool {
+		switch cond.Op {
+		case token.GTR:
+			return x > c
+		case token.GEQ:
+			return x >= c
+		case token.LSS:
+			return x < c
+		case token.LEQ:
+			return x <= c
+		case token.NEQ:
+			return x != c
+		}
+		return false
+	}
+	var out []string
+	for n := 0; test(v); n++ {
+		if n > 256 {
+			return nil, false
+		}
+		out = append(out, fmt.Sprint(v))
+		nv, ok := step(v)
+		if !ok {
+			return nil, false
+		}
+		v = nv
+	}
+	return out, len(out) > 0
 }
 
 func extraArgs(e *d8entry) []string {
@@ -1646,6 +2274,9 @@ func (d *d8) retType() string {
 	if n > 0 && (kinds[n-1] == "err" || (kinds[n-1] == "bool" && n == 2)) {
 		kinds = kinds[:n-1]
 	}
+	if d.reader != "" {
+		return "DR " + d.ent.errT + " (" + tup(kinds) + ") × Reader"
+	}
 	return "DR " + d.ent.errT + " (" + tup(kinds) + ")"
 }
 
@@ -1654,7 +2285,9 @@ func (d *d8) retType() string {
 func passDrivers(pkgs []*Pkg) (string, []string) {
 	var errs []string
 	var sb strings.Builder
-	sb.WriteString("import Secp.Model.Schnorr\nimport Secp.Model.Ecdsa\nimport Secp.Model.DriverRt\n/- GENERATED by tools/gotr (pass T8) from /repo — do not edit. -/\nset_option linter.unusedVariables false\nnamespace Secp.Gen.Drivers\nopen Secp.Spec Secp.Model\n\n")
+	sb.WriteString("import Secp.Model.Schnorr\nimport Secp.Model.Ecdsa\nimport Secp.Model.PrivKey\nimport Secp.Model.DriverRt\n/- GENERATED by tools/gotr (pass T8) from /repo — do not edit. -/\nset_option linter.unusedVariables false\nnamespace Secp.Gen.Drivers\nopen Secp.Spec Secp.Model\n\n")
+	pv := map[string]string{}
+	var body strings.Builder
 	for i := range d8entries {
 		ent := &d8entries[i]
 		var p *Pkg
@@ -1669,7 +2302,7 @@ func passDrivers(pkgs []*Pkg) (string, []string) {
 			continue
 		}
 		d := &d8{pkgs: pkgs, p: p, fn: ent.key, ent: ent, env: map[types.Object]*dloc{}, known: map[types.Object]bool{}, stype: map[string]string{},
-			loopVar: map[types.Object]string{}}
+			loopVar: map[types.Object]string{}, pv: pv, errTerm: map[types.Object]string{}, facts: map[string]bool{}, lenDef: map[string]string{}}
 		d.results = p.info.Defs[fd.Name].Type().(*types.Signature).Results()
 		var psig []string
 		addParam := func(id *ast.Ident) {
@@ -1680,7 +2313,7 @@ func passDrivers(pkgs []*Pkg) (string, []string) {
 				return
 			}
 			_, isPtr := o.Type().(*types.Pointer)
-			if ent.key == "ScalarBaseMultNonConst" && k == "point" && isPtr {
+			if (ent.key == "ScalarBaseMultNonConst" || ent.key == "ScalarMultNonConst") && k == "point" && isPtr && id.Name == "result" {
 				// out-parameter: starts as an arbitrary point, returned at the end
 				d.declare(id.Name, k)
 				d.env[o] = &dloc{root: id.Name, kind: k}
@@ -1690,6 +2323,9 @@ func passDrivers(pkgs []*Pkg) (string, []string) {
 			d.declare(id.Name, k)
 			d.env[o] = &dloc{root: id.Name, kind: k}
 			psig = append(psig, fmt.Sprintf("(%s : %s)", id.Name, leanType[k]))
+			if k == "reader" {
+				d.reader = id.Name
+			}
 		}
 		if fd.Recv != nil {
 			addParam(fd.Recv.List[0].Names[0])
@@ -1700,34 +2336,43 @@ func passDrivers(pkgs []*Pkg) (string, []string) {
 			}
 		}
 		var outName string
-		if ent.key == "ScalarBaseMultNonConst" {
+		if ent.key == "ScalarBaseMultNonConst" || ent.key == "ScalarMultNonConst" {
 			outName = "result"
 		}
-		body := d.stmts(fd.Body.List, func() *dnode {
+		tree := d.stmts(fd.Body.List, func() *dnode {
 			if outName != "" {
-				return &dnode{kind: "ret", term: outName}
+				return d.rt(outName)
 			}
 			if d.results.Len() == 0 {
-				return &dnode{kind: "ret", term: "()"}
+				return d.rt("()")
 			}
 			d.fail(fd, "function body falls off its end")
-			return &dnode{kind: "ret", term: ".panic"}
+			return d.rt(".panic")
 		})
 		if d.err != nil {
 			errs = append(errs, d.err.Error())
 			continue
 		}
 		for _, a := range d.aux {
-			sb.WriteString(a + "\n")
+			body.WriteString(a + "\n")
 		}
 		rt := d.retType()
 		if outName != "" {
 			rt = "Jac"
 		}
-		fmt.Fprintf(&sb, "/-- %s (%s) -/\ndef %s %s %s : %s :=\n", ent.key, strings.TrimPrefix(p.pos(fd), p.dir+"/"), ent.lean, ent.extra, strings.Join(psig, " "), rt)
-		body.print(&sb, "  ")
-		sb.WriteString("\n")
+		fmt.Fprintf(&body, "/-- %s (%s) -/\ndef %s %s %s : %s :=\n", ent.key, strings.TrimPrefix(p.pos(fd), p.dir+"/"), ent.lean, ent.extra, strings.Join(psig, " "), rt)
+		tree.print(&body, "  ")
+		body.WriteString("\n")
 	}
+	var pvn []string
+	for n := range pv {
+		pvn = append(pvn, n)
+	}
+	sort.Strings(pvn)
+	for _, n := range pvn {
+		fmt.Fprintf(&sb, "/-- package-level byte variable (read-only: C17) -/\ndef %s : Bytes := %s\n\n", n, pv[n])
+	}
+	sb.WriteString(body.String())
 	sb.WriteString("end Secp.Gen.Drivers\n")
 	return sb.String(), errs
 }
